@@ -33,10 +33,34 @@ void enumerate(Ctx& ctx)
 	rec(0, 0);
 }
 
-void checkOne(Ctx& ctx, const std::vector<int>& cfg)
+void checkPrt(Ctx& ctx, const ref::RPrt& r, const std::string& key, bool canonicalInput);
+void checkOne(Ctx& ctx, const std::vector<int>& cfg) { checkPrt(ctx, prtc::makePrt(cfg), prtc::describe(cfg), cfg[11] == 0); }
+
+// a file at scale: 9 palettes, 300 images, 40 animations of 1..25 frames with 0..12 layers each (about 6000 frames, 36000 layers)
+void largePrt(Ctx& ctx)
 {
-	ref::RPrt r = prtc::makePrt(cfg);
-	std::string key = prtc::describe(cfg);
+	ref::RPrt p;
+	for (int i = 0; i < 9; ++i) { std::array<ref::RColor, 256> pal; for (int k = 0; k < 256; ++k) pal[k] = { uint8_t(k * 3 + i), uint8_t(k ^ (i * 17)), uint8_t(255 - k), uint8_t((k + i) % 7) }; p.palettes.push_back(pal); }
+	for (int i = 0; i < 300; ++i) { ref::RImage im; im.width = uint32_t(1 + (i * 37) % 200); im.scanLine = uint32_t(ref::roundUp4(im.width)); im.height = uint32_t((i * 11) % 150); im.pixelOffset = uint32_t(i) * 4000u; im.type = uint16_t(i % 6); im.paletteIndex = uint16_t(i % 9); p.images.push_back(im); }
+	for (int a = 0; a < 40; ++a) {
+		ref::RAnimation an; an.unknown = uint32_t(a) * 0x01010101u; an.rect[0] = -a; an.rect[1] = a; an.rect[2] = a * 1000; an.rect[3] = -a * 1000; an.disp[0] = a; an.disp[1] = -a; an.unknown2 = uint32_t(a);
+		for (int f = 0; f < 1 + (a * 7) % 25 * (a % 3 == 0 ? 12 : 1); ++f) {
+			ref::RFrame fr; int layers = (a + f) % 13;
+			fr.count7 = uint8_t(layers); fr.flag1 = (f % 3) == 0; fr.unknown7 = uint8_t((a * f) % 128); fr.flag2 = (f % 5) == 0;
+			for (int k = 0; k < 4; ++k) fr.opt[k] = uint8_t(a + f + k);
+			for (int l = 0; l < layers; ++l) { ref::RLayer ly; ly.bitmapIndex = uint16_t((a * 31 + f * 7 + l) % 300); ly.unknown = uint8_t(l); ly.frameIndex = uint8_t(f); ly.x = int16_t(l * 3 - 20); ly.y = int16_t(f - 100); fr.layers.push_back(ly); }
+			an.frames.push_back(fr);
+		}
+		for (int c = 0; c < a % 4; ++c) { ref::RUnknown u; for (int k = 0; k < 4; ++k) u.v[k] = uint32_t(a * 100 + c * 10 + k); an.containers.push_back(u); }
+		p.animations.push_back(an);
+	}
+	std::size_t frames = 0, layers = 0; for (auto& an : p.animations) { frames += an.frames.size(); for (auto& f : an.frames) layers += f.layers.size(); }
+	checkPrt(ctx, p, "large file: 9 palettes, 300 images, 40 animations, " + std::to_string(frames) + " frames, " + std::to_string(layers) + " layers", true);
+	ctx.count("roundtrip/large-file");
+}
+
+void checkPrt(Ctx& ctx, const ref::RPrt& r, const std::string& key, bool canonicalInput)
+{
 	ctx.sub(key);
 	auto bytes = ref::encodePrt(r);
 	auto bad = [&](const std::string& c, const std::string& d) { ctx.violation("C10/" + c, key, d); };
@@ -56,7 +80,6 @@ void checkOne(Ctx& ctx, const std::vector<int>& cfg)
 	if (prtc::dump(a) != before) { bad("write-altered-the-object", ""); return; }
 	ref::RPrt canon = r; canon.form = ref::RPaletteHeaderForm();
 	auto expect = ref::encodePrt(canon);
-	bool canonicalInput = cfg[11] == 0;
 	if (w1 != expect) {
 		std::size_t i = 0; while (i < w1.size() && i < expect.size() && w1[i] == expect[i]) ++i;
 		bad(canonicalInput ? "written-bytes-differ-from-input" : "written-bytes-differ-from-canonical-encoding", "first difference at byte " + std::to_string(i) + " lengths " + std::to_string(w1.size()) + "/" + std::to_string(expect.size())); return;
@@ -231,6 +254,7 @@ void runCase(std::size_t i, Ctx& ctx)
 	if (k == 0) writerRefusals(ctx);
 	else if (k == 5) failingWrites(ctx);
 	else if (k == 6) corruptions(ctx, 4);
+	else if (k == 7) largePrt(ctx);
 	else corruptions(ctx, int(k - 1));
 }
 
@@ -241,7 +265,7 @@ int main(int argc, char** argv)
 	mc::CheckDef def;
 	def.id = "C10";
 	def.init = enumerate;
-	def.ncases = [](Ctx&) { return nChunks() + 7; };
+	def.ncases = [](Ctx&) { return nChunks() + 8; };
 	def.run = runCase;
 	def.caseTimeoutS = 300;
 	return mc::Main(argc, argv, def);
